@@ -1,5 +1,557 @@
 package main
 
-import "verif/engine/core"
+import (
+	"fmt"
+	"os"
+	"regexp"
+	"strings"
 
-func extraFamilies(tier string) []*core.Family { return nil }
+	rt "github.com/arnodel/golua/runtime"
+
+	"verif/engine/core"
+)
+
+func extraFamilies(tier string) []*core.Family {
+	return []*core.Family{uFamily(), mFamily(), lFamily(tier), rFamily(tier)}
+}
+
+// ------------------------------------------------------------------ U
+//
+// What the manual itself says about dump/load of functions WITH upvalues and
+// about the arguments of load (§6.4 string.dump: "Functions with upvalues will
+// have only their number of upvalues saved. When (re)loaded, those upvalues
+// receive fresh instances."; §6.1 load: "if the resulting function has
+// upvalues, its first upvalue is set to the value of env, if that parameter is
+// given, or to the value of the global environment. Other upvalues are
+// initialized with nil."; "mode ... may be the string "b" (only binary
+// chunks), "t" (only text chunks), or "bt"").  Each script emits booleans;
+// every emitted value must be true.
+
+type uScript struct{ name, src string }
+
+var uScripts = []uScript{
+	{"one-upvalue-gets-global-env", `
+local a = 5
+local f = function() return a end
+local g = load(string.dump(f))
+emit(type(g) == "function")
+emit(g() == _G)`},
+	{"one-upvalue-gets-env-arg", `
+local a = 5
+local f = function() return a end
+local E = {}
+local g = load(string.dump(f), "n", "b", E)
+emit(g() == E)
+emit(f() == 5)`},
+	{"two-upvalues-first-env-others-nil", `
+local a, b = 5, 6
+local f = function() return a, b end
+local g = load(string.dump(f))
+local x, y = g()
+emit((x == _G and y == nil) or (x == nil and y == _G))
+emit(select('#', g()) == 2)`},
+	{"three-upvalues-one-env-two-nil", `
+local a, b, c = 5, 6, 7
+local f = function() return a, b, c end
+local E = {}
+local g = load(string.dump(f), "n", "b", E)
+local n, e = 0, 0
+local x, y, z = g()
+for _, v in ipairs({x or false, y or false, z or false}) do if v == E then e = e + 1 elseif v == false then n = n + 1 end end
+emit(e == 1, n == 2)`},
+	{"fresh-upvalues-not-shared-with-original", `
+local t = {}
+local f = function(v) if v then t = v end return t end
+local g = load(string.dump(f))
+g("changed")
+emit(f() ~= "changed", g() == "changed")
+local h = load(string.dump(f))
+emit(h() == _G)`},
+	{"no-upvalue-function", `
+local f = function(a, b) return a, b, "k" end
+local g = load(string.dump(f), "n", "b", {})
+local x, y, z = g(1, 2)
+emit(x == 1, y == 2, z == "k")`},
+	{"main-chunk-env-arg", `
+local f = load("x = 1; return x")
+local E = {}
+local g = load(string.dump(f), "n", "b", E)
+emit(g() == 1, E.x == 1, x == nil)
+emit(f() == 1, x == 1)`},
+	{"env-arg-nil-is-given", `
+local f = load("return x")
+local g = load(string.dump(f), "n", "b", nil)
+emit(type(g) == "function")
+emit(pcall(g) == false)`},
+	{"mode-t-rejects-binary", `
+local d = string.dump(load("return 1"))
+local g, msg = load(d, "n", "t")
+emit(g == nil, type(msg) == "string")`},
+	{"mode-b-rejects-text", `
+local g, msg = load("return 1", "n", "b")
+emit(g == nil, type(msg) == "string")`},
+	{"mode-bt-and-default-accept-both", `
+local d = string.dump(load("return 7"))
+emit(load(d, "n", "bt")() == 7, load(d)() == 7, load(d, "n")() == 7, load(d, nil, nil)() == 7, load("return 7", "n", "bt")() == 7)`},
+	{"dump-returns-string-and-rejects-non-functions", `
+local d = string.dump(function() end)
+emit(type(d) == "string", #d > 0)
+emit(pcall(string.dump) == false, pcall(string.dump, 1) == false, pcall(string.dump, "x") == false, pcall(string.dump, {}) == false, pcall(string.dump, nil) == false)`},
+	{"dump-with-embedded-zeros-survives-string-ops", `
+local f = load("return 'a\\0b', 0")
+local d = string.dump(f)
+local copy = d:sub(1, 10) .. d:sub(11)
+emit(copy == d, #copy == #d)
+local s, z = load(copy)()
+emit(s == "a\0b", z == 0)`},
+	{"strip-is-accepted", `
+local f = load("local a = ... ; return a, 2")
+local d = string.dump(f, true)
+emit(type(d) == "string")
+local g = load(d)
+local x, y = g(9)
+emit(x == 9, y == 2)
+emit(type(string.dump(f, false)) == "string", type(string.dump(f, nil)) == "string")`},
+	{"loaded-function-can-be-dumped-and-called-many-times", `
+local f = load("local n = ... or 0; return n + 1")
+local g = f
+for i = 1, 5 do g = load(string.dump(g)) end
+emit(g(1) == 2, g() == 1, string.dump(g) == string.dump(f))`},
+	{"dump-inside-coroutine-and-pcall", `
+local f = load("return ...")
+local co = coroutine.wrap(function() local d = string.dump(f); coroutine.yield(d); return load(d) end)
+local d = co()
+local g = co()
+emit(type(d) == "string", g(4) == 4)
+local ok, d2 = pcall(string.dump, f)
+emit(ok, d2 == d)`},
+}
+
+func uFamily() *core.Family {
+	return &core.Family{
+		Name: "U-manual",
+		Size: uint64(len(uScripts)),
+		Show: func(i uint64) string { return uScripts[i].name + "\n" + uScripts[i].src },
+		Run: func(i uint64) core.Outcome {
+			u := uScripts[i]
+			m := newMachine()
+			defer m.Close()
+			o := m.Exec(chunkName, u.src, nil, runDef())
+			bad := ""
+			if o.Status != "ok" {
+				bad = "the script did not finish: " + obsString(o)
+			} else {
+				for k, ev := range o.Trace {
+					for _, v := range strings.Split(ev, ",") {
+						if v != "true" {
+							bad = fmt.Sprintf("emit #%d gave %s (every value must be true)", k+1, ev)
+						}
+					}
+				}
+				if len(o.Trace) == 0 {
+					bad = "the script emitted nothing"
+				}
+			}
+			out := core.Outcome{NonTrivial: true, Sig: core.Hash64(u.name + obsString(o)), States: 1}
+			if bad != "" {
+				out.Viol = &core.Violation{Key: "U-manual " + u.name + " clause=manual", Detail: bad + "\n" + numbered(u.src)}
+			}
+			return out
+		},
+	}
+}
+
+// ------------------------------------------------------------------ M
+//
+// load modes x ways of feeding the dump (string, reader functions returning
+// pieces of k bytes and ending with nil / with the empty string).
+
+var mFuncs = []struct{ name, src string }{
+	{"arith", `local a, b = ... ; emit(a, b) return (a or 1) + 2.5, "str", 100000`},
+	{"closure", `local n = 0; local function inc() n = n + 1; return n end; emit(inc(), inc()); return inc() + select('#', ...)`},
+	{"loop", "local s = 0\nfor i = 1, 3 do s = s + i end\nemit(s)\nif s > 5 then goto e end\nemit('no')\n::e::\nerror('at line 7')"},
+	{"method", `local t = {x = "k", 1, 2}; function t:m(a) return self.x .. a end; emit(t:m("z"), #t, ...)`},
+	{"close", `local c <close> = setmetatable({}, {__close = function() emit("closed") end}); emit(select('#', ...), ...); return ...`},
+}
+
+var mModes = []string{"", "b", "bt", "tb", "t"}
+var mFeeds = []int{0, 1, 7, 4096, -1, -7} // 0 = string; k>0 reader of k byte pieces ending with nil; k<0 ending with ""
+
+const mReader = `
+local d, k, mode = ...
+if mode == "" then mode = nil end
+if k == 0 then return load(d, "chunk", mode) end
+local stop = nil
+if k < 0 then k = -k stop = "" end
+local pos = 1
+local function reader()
+  if pos > #d then return stop end
+  local s = d:sub(pos, pos + k - 1)
+  pos = pos + k
+  return s
+end
+return load(reader, "chunk", mode)
+`
+
+func mFamily() *core.Family {
+	n := len(mFuncs) * len(mModes) * len(mFeeds)
+	decode := func(i uint64) (fn, mode, feed int) {
+		fn = int(i) % len(mFuncs)
+		i /= uint64(len(mFuncs))
+		mode = int(i) % len(mModes)
+		feed = int(i) / len(mModes)
+		return
+	}
+	return &core.Family{
+		Name: "M-modes-readers",
+		Size: uint64(n),
+		Show: func(i uint64) string {
+			fn, mode, feed := decode(i)
+			return fmt.Sprintf("fn=%s mode=%q feed=%d\n%s", mFuncs[fn].name, mModes[mode], mFeeds[feed], mFuncs[fn].src)
+		},
+		Run: func(i uint64) core.Outcome {
+			fn, mode, feed := decode(i)
+			key := fmt.Sprintf("M-modes-readers fn=%s mode=%q feed=%d", mFuncs[fn].name, mModes[mode], mFeeds[feed])
+			args := toRTs(stdTuples[3])
+			A := newMachine()
+			f, problem := compile(A, mFuncs[fn].src, false)
+			if problem != "" {
+				A.Close()
+				return core.Outcome{Viol: &core.Violation{Key: key + " clause=does-not-compile", Detail: problem}}
+			}
+			d, o := dump(A, f, false, emptyDef())
+			if o.status != "ok" {
+				A.Close()
+				return core.Outcome{Viol: &core.Violation{Key: key + " clause=dump-fails", Detail: o.String()}}
+			}
+			obsF := observe(A, f, args)
+			A.Close()
+
+			B := newMachine()
+			defer B.Close()
+			rd, problem := compile(B, mReader, false)
+			if problem != "" {
+				panic("c13: reader chunk: " + problem)
+			}
+			r := callRaw(B, rd, []rt.Value{rt.StringValue(d), rt.IntValue(int64(mFeeds[feed])), rt.StringValue(mModes[mode])}, emptyDef())
+			out := core.Outcome{NonTrivial: true, States: 1}
+			fail := func(clause, format string, a ...interface{}) core.Outcome {
+				out.Viol = &core.Violation{Key: key + " clause=" + clause, Detail: fmt.Sprintf(format, a...) + "\nfunction: " + mFuncs[fn].src}
+				return out
+			}
+			if r.status != "ok" {
+				return fail("load-raises", "load did not return: %s", r)
+			}
+			isFn := false
+			if len(r.vals) > 0 {
+				_, isFn = r.vals[0].TryCallable()
+			}
+			out.Sig = core.Hash64(fmt.Sprint(key, isFn))
+			if mModes[mode] == "t" {
+				// "t": only text chunks
+				if isFn || len(r.vals) < 2 || !r.vals[0].IsNil() {
+					return fail("mode-t-accepts-binary", "load(dump, name, \"t\") must return fail plus a message; got %s", strings.Join(B.Canon.Values(r.vals), ", "))
+				}
+				if _, ok := r.vals[1].TryString(); !ok {
+					return fail("mode-t-message", "the second result of a failing load must be a message; got %s", strings.Join(B.Canon.Values(r.vals), ", "))
+				}
+				return out
+			}
+			if !isFn {
+				return fail("load-fails", "load returned %s", strings.Join(B.Canon.Values(r.vals), ", "))
+			}
+			obsG := observe(B, r.vals[0], args)
+			if c := diffClause(obsF, obsG); c != "" {
+				return fail("behaviour-"+c, "f(1,2,3): %s\ng(1,2,3): %s", obsString(obsF), obsString(obsG))
+			}
+			return out
+		},
+	}
+}
+
+// ------------------------------------------------------------------ L
+//
+// dump and load are charged inside a limited runtime context: used memory and
+// CPU are non zero and grow with the size of the function, and under a limit
+// far below the size of the data produced the call never succeeds.
+
+var lKinds = []string{"ints", "floats", "strings", "longstring", "nested"}
+
+func lSource(kind string, n int) string {
+	var sb strings.Builder
+	sb.WriteString("local x\n")
+	switch kind {
+	case "ints":
+		for i := 0; i < n; i++ {
+			fmt.Fprintf(&sb, "x = %d\n", 100000+i)
+		}
+	case "floats":
+		for i := 0; i < n; i++ {
+			fmt.Fprintf(&sb, "x = %d.5\n", i)
+		}
+	case "strings":
+		for i := 0; i < n; i++ {
+			fmt.Fprintf(&sb, "x = \"str%07d\"\n", i)
+		}
+	case "longstring":
+		sb.WriteString("x = \"" + strings.Repeat("0123456789", n) + "\"\n")
+	case "nested":
+		for i := 0; i < n; i++ {
+			fmt.Fprintf(&sb, "x = function() return %d end\n", 100000+i)
+		}
+	}
+	sb.WriteString("return x\n")
+	return sb.String()
+}
+
+func lFamily(tier string) *core.Family {
+	ns := []int{100, 10000}
+	if tier == "thorough" {
+		ns = []int{100, 1000, 10000, 30000}
+	}
+	type cs struct {
+		kind string
+		op   string
+	}
+	var cases []cs
+	for _, k := range lKinds {
+		for _, op := range []string{"dump", "load"} {
+			cases = append(cases, cs{k, op})
+		}
+	}
+	huge := rt.RuntimeResources{Cpu: 1 << 50, Memory: 1 << 50}
+	return &core.Family{
+		Name:        "L-charged",
+		Size:        uint64(len(cases)),
+		HangSeconds: 300,
+		Show: func(i uint64) string {
+			return fmt.Sprintf("kind=%s op=%s N=%v", cases[i].kind, cases[i].op, ns)
+		},
+		Run: func(i uint64) core.Outcome {
+			c := cases[i]
+			var out core.Outcome
+			out.NonTrivial = true
+			var sig strings.Builder
+			add := func(n int, clause, format string, a ...interface{}) {
+				out.Viols = append(out.Viols, &core.Violation{
+					Key:    fmt.Sprintf("L-charged kind=%s op=%s N=%d clause=%s", c.kind, c.op, n, clause),
+					Detail: fmt.Sprintf(format, a...),
+				})
+			}
+			// run op once in a fresh runtime inside the context def
+			runOp := func(src, d string, def *rt.RuntimeContextDef) raw {
+				m := newMachine()
+				defer m.Close()
+				if c.op == "dump" {
+					f, problem := compile(m, src, false)
+					if problem != "" {
+						return raw{status: "compile", err: problem}
+					}
+					_, o := dump(m, f, false, def)
+					return o
+				}
+				g, o := load(m, d, "b", def)
+				if o.status == "ok" && g.IsNil() {
+					o.status = "err" // nil + message
+				}
+				return o
+			}
+			var prevMem, prevCPU uint64
+			prevN := 0
+			for _, n := range ns {
+				src := lSource(c.kind, n)
+				// the dump itself, produced outside any limit
+				m := newMachine()
+				f, problem := compile(m, src, false)
+				if problem != "" {
+					m.Close()
+					add(n, "does-not-compile", "%s", problem)
+					continue
+				}
+				d, o := dump(m, f, false, emptyDef())
+				m.Close()
+				if o.status != "ok" {
+					add(n, "dump-fails", "%s", o)
+					continue
+				}
+				L := uint64(len(d))
+				// (a) measured under limits that are never reached
+				u := runOp(src, d, &rt.RuntimeContextDef{HardLimits: huge})
+				out.States++
+				fmt.Fprintf(&sig, "N=%d len=%d %s mem=%d cpu=%d\n", n, L, u.status, u.usedMem, u.usedCPU)
+				if u.status != "ok" {
+					add(n, "unlimited-fails", "%s of a %d byte dump under limits of 2^50 did not succeed: %s", c.op, L, u)
+					continue
+				}
+				if u.usedMem == 0 {
+					add(n, "memory-not-charged", "%s (dump length %d) inside a memory tracking context used memory 0", c.op, L)
+				}
+				if u.usedCPU == 0 {
+					add(n, "cpu-not-charged", "%s (dump length %d) inside a cpu tracking context used cpu 0", c.op, L)
+				}
+				if prevN != 0 {
+					if u.usedMem <= prevMem {
+						add(n, "memory-does-not-grow", "%s: used memory %d for N=%d but %d for N=%d", c.op, u.usedMem, n, prevMem, prevN)
+					}
+					if u.usedCPU <= prevCPU {
+						add(n, "cpu-does-not-grow", "%s: used cpu %d for N=%d but %d for N=%d", c.op, u.usedCPU, n, prevCPU, prevN)
+					}
+				}
+				prevN, prevMem, prevCPU = n, u.usedMem, u.usedCPU
+				// (b) limits far below the size of the data: never a success
+				for _, M := range []uint64{L / 4, L / 16, 1024} {
+					if M == 0 || M > L/4 {
+						continue
+					}
+					r := runOp(src, d, &rt.RuntimeContextDef{HardLimits: rt.RuntimeResources{Memory: M}})
+					out.States++
+					fmt.Fprintf(&sig, " M=%d %s\n", M, r.status)
+					switch r.status {
+					case "ok":
+						add(n, "succeeds-under-memory-limit", "%s of a %d byte dump succeeded under a hard memory limit of %d (used memory reported: %d)", c.op, L, M, r.usedMem)
+					case "gopanic":
+						add(n, "gopanic-under-memory-limit", "%s under memory limit %d: Go panic %s", c.op, M, r.err)
+					}
+				}
+				if n >= 10000 {
+					for _, C := range []uint64{20, 200} {
+						r := runOp(src, d, &rt.RuntimeContextDef{HardLimits: rt.RuntimeResources{Cpu: C}})
+						out.States++
+						fmt.Fprintf(&sig, " C=%d %s\n", C, r.status)
+						switch r.status {
+						case "ok":
+							add(n, "succeeds-under-cpu-limit", "%s of a %d byte dump (%d constants) succeeded under a hard cpu limit of %d (used cpu reported: %d)", c.op, L, n, C, r.usedCPU)
+						case "gopanic":
+							add(n, "gopanic-under-cpu-limit", "%s under cpu limit %d: Go panic %s", c.op, C, r.err)
+						}
+					}
+				}
+			}
+			out.Sig = core.Hash64(sig.String())
+			if os.Getenv("C13_DEBUG") != "" {
+				fmt.Fprint(os.Stderr, sig.String())
+			}
+			return out
+		},
+	}
+}
+
+// ------------------------------------------------------------------ R
+//
+// every single-byte truncation and every single-bit flip of the dumps of five
+// small functions: load returns fail+message or a function, never a Go panic;
+// a returned function called under limits gives an ordinary outcome.
+
+type rCase struct {
+	fn    int
+	trunc bool
+	pos   int // truncation: length kept; flip: bit index
+}
+
+var rDumps []string // dump of mFuncs[k], computed once per process
+var rFields [][]field
+
+func rInit() {
+	if rDumps != nil {
+		return
+	}
+	for _, mf := range mFuncs {
+		m := newMachine()
+		f, problem := compile(m, mf.src, false)
+		if problem != "" {
+			panic("c13: R function does not compile: " + problem)
+		}
+		d, o := dump(m, f, false, emptyDef())
+		m.Close()
+		if o.status != "ok" {
+			panic("c13: R function does not dump: " + o.String())
+		}
+		rDumps = append(rDumps, d)
+		fs, err := parseDump(d)
+		if err != nil {
+			panic("c13: the format reader does not understand a dump: " + err.Error())
+		}
+		rFields = append(rFields, fs)
+	}
+}
+
+var digits = regexp.MustCompile(`[0-9]+`)
+var hexes = regexp.MustCompile(`0x[0-9a-f]+`)
+
+func panicClass(s string) string {
+	s = hexes.ReplaceAllString(s, "X")
+	s = digits.ReplaceAllString(s, "N")
+	if len(s) > 90 {
+		s = s[:90]
+	}
+	return s
+}
+
+func rFamily(tier string) *core.Family {
+	rInit()
+	var cases []rCase
+	for k, d := range rDumps {
+		for n := 0; n < len(d); n++ {
+			cases = append(cases, rCase{k, true, n})
+		}
+		for b := 0; b < 8*len(d); b++ {
+			cases = append(cases, rCase{k, false, b})
+		}
+	}
+	mutate := func(c rCase) (string, string) {
+		d := rDumps[c.fn]
+		if c.trunc {
+			return d[:c.pos], fmt.Sprintf("trunc@%d", c.pos)
+		}
+		b := []byte(d)
+		b[c.pos/8] ^= 1 << (c.pos % 8)
+		return string(b), fmt.Sprintf("flip@%d.%d", c.pos/8, c.pos%8)
+	}
+	where := func(c rCase) string {
+		off := c.pos
+		if !c.trunc {
+			off = c.pos / 8
+		}
+		kind, _ := kindAt(rFields[c.fn], off)
+		return kind
+	}
+	return &core.Family{
+		Name:        "R-corrupt",
+		Size:        uint64(len(cases)),
+		HangSeconds: 60,
+		Show: func(i uint64) string {
+			c := cases[i]
+			_, mut := mutate(c)
+			off := c.pos
+			if !c.trunc {
+				off = c.pos / 8
+			}
+			return fmt.Sprintf("fn=%s %s in %s\n%s", mFuncs[c.fn].name, mut, fieldAt(rFields[c.fn], off), mFuncs[c.fn].src)
+		},
+		Run: func(i uint64) core.Outcome {
+			c := cases[i]
+			d, mut := mutate(c)
+			key := fmt.Sprintf("R-corrupt fn=%s mut=%s field=%s", mFuncs[c.fn].name, mut, where(c))
+			m := newMachine()
+			defer m.Close()
+			out := core.Outcome{NonTrivial: true, States: 1}
+			g, o := load(m, d, "b", emptyDef())
+			if o.status == "gopanic" {
+				out.Viol = &core.Violation{Key: fmt.Sprintf("%s clause=load-gopanic panic=%q", key, panicClass(o.err)),
+					Detail: fmt.Sprintf("load(<%s of the dump of %s>, \"chunk\", \"b\") let a Go panic escape: %s", mut, mFuncs[c.fn].name, o.err)}
+				return out
+			}
+			if g.IsNil() {
+				out.Sig = core.Hash64("rejected " + o.status)
+				return out
+			}
+			r := callRaw(m, g, toRTs(stdTuples[3]), &rt.RuntimeContextDef{HardLimits: rt.RuntimeResources{Cpu: 100000, Memory: 100000000}})
+			out.Sig = core.Hash64("loaded " + r.status)
+			if r.status == "gopanic" {
+				out.Viol = &core.Violation{Key: fmt.Sprintf("%s clause=call-gopanic panic=%q", key, panicClass(r.err)),
+					Detail: fmt.Sprintf("load accepted <%s of the dump of %s>; calling the function under cpu limit 100000 let a Go panic escape: %s", mut, mFuncs[c.fn].name, r.err)}
+			}
+			return out
+		},
+	}
+}
